@@ -112,6 +112,10 @@ def run(ctx, rep):
     from . import c10
 
     rule_refcnt_pair(ctx, rep)
+    from . import c07 as _c07
+
+    _c07.rule_guard(ctx, rep)  # the address a handle reports is that of the block it owns: a replacement behind with_arc_mut's transient is stored back on both exits
+    balance.rule_writeback(ctx, rep)
     c10.rule_thick(ctx, rep)  # a thin handle taken back from its raw pointer shows the slice its block holds: the length is read from that block's own header
     for tag, F, E in ctx.each(da=False):
         N = ptrclass.Norm(F)
